@@ -2622,6 +2622,11 @@ func (d *decoderMsgpackBytes) swallow() {
 	d.d.nextValueBytes()
 }
 
+func (d *decoderMsgpackBytes) readArrayStart() int {
+	halt.onerror(d.err)
+	return d.d.ReadArrayStart()
+}
+
 func (d *decoderMsgpackBytes) nextValueBytes() []byte {
 	return d.d.nextValueBytes()
 }
@@ -6648,6 +6653,11 @@ func (d *decoderMsgpackIO) Release() {}
 
 func (d *decoderMsgpackIO) swallow() {
 	d.d.nextValueBytes()
+}
+
+func (d *decoderMsgpackIO) readArrayStart() int {
+	halt.onerror(d.err)
+	return d.d.ReadArrayStart()
 }
 
 func (d *decoderMsgpackIO) nextValueBytes() []byte {
